@@ -216,6 +216,7 @@ inductive Op (D : Type) where
   | sendText (p : Text) | sendData (p : Bytes) | sendMedia (d : D) (ty : PType)
   | recv (k : RecvKind)
   | raiseHttp (status : Int) | raiseStatus (status : Int) | raiseExc | raiseBoom
+  | raiseOf (e : Exc)     -- an exception of a framework class raised by the script itself / by an operation on another connection
 
 def outOf {D : Type} : Option Exc → Out D
   | none => .ok none
@@ -232,6 +233,7 @@ def W.op {D : Type} (h : Handlers D) (w : W) (disc : Option Int) : Op D → W ×
   | .raiseStatus s => (w, .error (.httpStatus s))
   | .raiseExc => (w, .error .pyErr)
   | .raiseBoom => (w, .error .boom)
+  | .raiseOf e => (w, .error e)
 
 abbrev Step (D : Type) := Op D × Catch × Option Int
 
@@ -341,6 +343,7 @@ def projOp {D : Type} : Op D → Ws.Op
   | .raiseStatus s => .raiseStatus s
   | .raiseExc => .raiseExc
   | .raiseBoom => .raiseBoom
+  | .raiseOf e => .raiseOf e
 
 def projOut {D : Type} : Out D → Option Exc
   | .ok _ => none
